@@ -7,6 +7,22 @@ from .core import (V, Heap, VNone, VBool, VInt, VFloat, VStr, VList, VDict, VDat
 
 MAX_LIST = 6
 MAX_KEYS = 5
+_PROBE = None
+
+
+def probe_keys():
+    """string constants of the repo sources: candidate dict keys to look for in a counter-model"""
+    global _PROBE
+    if _PROBE is None:
+        import ast
+        from .source import Repo
+        keys = set()
+        for m in Repo().modules.values():
+            for n in ast.walk(m.tree):
+                if isinstance(n, ast.Constant) and isinstance(n.value, str) and 0 < len(n.value) <= 24 and '\n' not in n.value:
+                    keys.add(n.value)
+        _PROBE = sorted(keys)
+    return _PROBE
 
 
 class Graph:
@@ -60,6 +76,16 @@ class Graph:
                         if not z3.is_true(has):
                             continue
                         self.objects[oid]['items'].append([ks, self.value(model, heap, heap.dget(v.arg(0), k), depth - 1)])
+                    if len(self.objects[oid]['items']) < MAX_KEYS:
+                        for ks in probe_keys():
+                            if ks in seen:
+                                continue
+                            k = z3.StringVal(ks)
+                            if z3.is_true(model.eval(heap.dhas(v.arg(0), k), model_completion=True)):
+                                seen.add(ks)
+                                self.objects[oid]['items'].append([ks, self.value(model, heap, heap.dget(v.arg(0), k), depth - 1)])
+                                if len(self.objects[oid]['items']) >= MAX_KEYS + 3:
+                                    break
             return {'$ref': oid}
         if name == 'VDate':
             return {'$date': [v.arg(0).as_long(), v.arg(1).as_long()]}
@@ -76,9 +102,14 @@ def concretize_inputs(contract, model, res):
     K = res.ghost.get('K')
     if K is None:
         return None
+    if hasattr(contract, 'concretize'):
+        return contract.concretize(model, res)
     g = Graph()
-    args = [g.value(model, K.heap, K.ctx.to_term(a)) for a in K.args]
-    return {'objects': g.objects, 'args': args}
+    args = [g.value(model, K.heap, K.ctx.to_term(a), depth=6) for a in K.args]
+    out = {'objects': g.objects, 'args': args}
+    if hasattr(contract, 'concretize_extra'):
+        out['extra'] = contract.concretize_extra(model, K)
+    return out
 
 
 # ---------------------------------------------------------------------------------------------
